@@ -66,6 +66,7 @@ type EntryOut struct {
 	EndKinds     map[string]int `json:"end_kinds"`
 	Samples      []string       `json:"samples"`
 	Races        []symex.Race   `json:"races,omitempty"`
+	ViolCounts   map[string]int `json:"violation_counts"`
 }
 
 func main() {
@@ -86,8 +87,11 @@ func main() {
 	flag.Var(&defs, "D", "harness parameter name=int; repeatable")
 	flag.Var(&overrides, "override", "callee=harnessFunc override; repeatable")
 	list := flag.Bool("list", false, "list entries and exit")
+	shard := flag.String("shard", "", "i/n : explore shard i of n (n a power of two)")
+	strint := flag.Bool("strint", true, "encode strings as integers (equality-only string reasoning)")
 	flag.Parse()
 
+	smt.StrAsInt = *strint
 	t0 := time.Now()
 	prog, pkg, err := load(*dir, *pkgPat, harness)
 	if err != nil {
@@ -131,6 +135,15 @@ func main() {
 		ex.MaxPaths = *maxPaths
 		ex.HarnessPkg = pkg
 		ex.SetupRedirects(pkg)
+		if *shard != "" {
+			var i, n int
+			fmt.Sscanf(*shard, "%d/%d", &i, &n)
+			bits := 0
+			for (1 << uint(bits)) < n {
+				bits++
+			}
+			ex.ShardBits, ex.ShardID = bits, i
+		}
 		for _, d := range defs {
 			kv := strings.SplitN(d, "=", 2)
 			n := 0
@@ -166,7 +179,14 @@ func main() {
 				eo.Samples = append(eo.Samples, fmt.Sprintf("path#%d end=%s pc_conjuncts=%d notes=%v", i, e.Kind, e.NPC, e.Notes))
 			}
 		}
+		perID := map[string]int{}
+		eo.ViolCounts = map[string]int{}
 		for _, v := range ex.Viol {
+			eo.ViolCounts[v.ID]++
+			perID[v.ID]++
+			if perID[v.ID] > 6 {
+				continue
+			}
 			vo := ViolOut{ID: v.ID, Msg: v.Msg, Pos: v.Pos, Stack: v.Stack, Notes: v.Notes, Model: v.Model}
 			for _, r := range v.ND {
 				val := ""
@@ -223,6 +243,12 @@ func decode(kind, val string) string {
 		}
 		return "false"
 	case "string":
+		if smt.StrAsInt {
+			if n, ok := smt.ParseInt(val); ok && n.IsInt64() {
+				return smt.DecodeStr(n.Int64())
+			}
+			return ""
+		}
 		if s, ok := smt.ParseString(val); ok {
 			return s
 		}
